@@ -244,6 +244,7 @@ pub fn request(id: Value, method: &str, path: &str, host: Option<&str>, plan: &[
 /// Verdict of the compiler on a single application (no SDK build, no requests).
 pub fn verdict_alone(lane: &Lane, spec: &AppSpec) -> Result<PavexcVerdict, String> {
     lane.write_workspace(std::slice::from_ref(spec));
+    lane.reset_sdk();
     let b = lane.build_app();
     if !b.ok() {
         return Err(format!("application crate does not compile:\n{}", b.stderr.chars().take(3000).collect::<String>()));
@@ -303,6 +304,8 @@ pub fn tree_hash(dir: &std::path::Path) -> std::collections::BTreeMap<String, u6
 /// Prepare the workspace for verdict-only runs: writes and builds the application crate.
 pub fn prepare(lane: &Lane, specs: &[AppSpec]) -> Result<(), String> {
     lane.write_workspace(specs);
+    // (the `sdk` member may hold an SDK generated earlier, with other dependency paths)
+    lane.reset_sdk();
     let b = lane.build_app();
     if !b.ok() {
         return Err(b.stderr.chars().take(4000).collect());
